@@ -22,8 +22,8 @@ BatchAlpha == <<
     [name |-> "m", tags |-> [h |-> "a"], byName |-> FALSE, tmax |-> 20,
      pts |-> <<BPt("a", "y", 11, [v |-> I(2)]), BPt("a", "x", 11, [v |-> I(1)])>>] >>
 
-SrcS == [batch |-> FALSE, dims |-> <<"h">>, byName |-> FALSE]
-SrcB == [batch |-> TRUE, dims |-> <<"h">>, byName |-> FALSE]
+SrcS == [batch |-> FALSE, dims |-> <<"h">>, byName |-> FALSE, trunc |-> 0, tzr |-> 0]
+SrcB == [batch |-> TRUE, dims |-> <<"h">>, byName |-> FALSE, trunc |-> 0, tzr |-> 0]
 Ord == <<"g", "h", "l.p", "p", "r.p">>
 
 Where(p, lam) == [k |-> "where", parent |-> p, lam |-> lam]
@@ -31,13 +31,13 @@ Eval(p, lams, as, tags, keep, kl) == [k |-> "eval", parent |-> p, lams |-> lams,
 Default(p, f, t) == [k |-> "default", parent |-> p, fields |-> f, tags |-> t]
 Delete(p, f, t) == [k |-> "delete", parent |-> p, fields |-> f, tags |-> t]
 Shift(p, d) == [k |-> "shift", parent |-> p, d |-> d]
-Sample(p, n, d) == [k |-> "sample", parent |-> p, n |-> n, d |-> d]
+Sample(p, n, d) == [k |-> "sample", parent |-> p, n |-> n, d |-> d, zr |-> 0]
 Deriv(p, as, unit, nn) == [k |-> "derivative", parent |-> p, field |-> "v", as |-> as, unit |-> unit, nonNeg |-> nn]
 Change(p, fs) == [k |-> "changeDetect", parent |-> p, fields |-> fs]
 SCount(p, lam, as) == [k |-> "stateCount", parent |-> p, lam |-> lam, as |-> as]
 SDur(p, lam, as, unit) == [k |-> "stateDuration", parent |-> p, lam |-> lam, as |-> as, unit |-> unit]
-Flat(p, on, tol, drop) == [k |-> "flatten", parent |-> p, on |-> on, delim |-> ".", tol |-> tol, drop |-> drop]
-Comb(p, lams, tol, max) == [k |-> "combine", parent |-> p, lams |-> lams, as |-> <<"l", "r">>, delim |-> ".", tol |-> tol, max |-> max]
+Flat(p, on, tol, drop) == [k |-> "flatten", parent |-> p, on |-> on, delim |-> ".", tol |-> tol, zr |-> 0, drop |-> drop]
+Comb(p, lams, tol, max) == [k |-> "combine", parent |-> p, lams |-> lams, as |-> <<"l", "r">>, delim |-> ".", tol |-> tol, zr |-> 0, max |-> max]
 GroupBy(p, dims, star, excl, bn) == [k |-> "groupBy", parent |-> p, dims |-> dims, star |-> star, excl |-> excl, byName |-> bn]
 Tap(p) == [k |-> "tap", parent |-> p]
 
